@@ -681,6 +681,37 @@ func c08GenProfile(r *Rng, strategy string) *profile.Profile {
 				s.NumLabel["n"] = []int64{int64(r.Intn(3))}
 				s.NumUnit["n"] = []string{""}
 			}
+		} else if r.Chance(50) {
+			// several numeric labels, NONE named bytes, with and without units; sometimes more than four
+			s.NumLabel = map[string][]int64{}
+			s.NumUnit = map[string][]string{}
+			keys := []string{"alignment", "request", "size", "depth", "objects", "n", "latency"}
+			for _, j := range perm(r, len(keys))[:2+r.Intn(2)+4*(r.Intn(4)/3)] {
+				k := keys[j]
+				s.NumLabel[k] = []int64{[]int64{8, 16, 1024, 4096, 3}[r.Intn(5)]}
+				switch k {
+				case "alignment", "size":
+					s.NumUnit[k] = []string{"bytes"}
+				case "latency":
+					s.NumUnit[k] = []string{"ms"}
+				default:
+					if r.Bool() {
+						s.NumUnit[k] = []string{""}
+					}
+				}
+			}
+		}
+		if r.Chance(20) {
+			// many string labels (more than four keys, some with two values)
+			if s.Label == nil {
+				s.Label = map[string][]string{}
+			}
+			for _, k := range []string{"k", "thread", "req", "tenant", "zone", "phase"}[:3+r.Intn(4)] {
+				s.Label[k] = []string{r.Pick(labelVals)}
+				if r.Chance(20) {
+					s.Label[k] = append(s.Label[k], r.Pick(labelVals))
+				}
+			}
 		}
 		p.Sample = append(p.Sample, s)
 		if strategy == "pm-pairs" && r.Chance(60) {
